@@ -126,4 +126,66 @@ theorem same_file_only_self_esm (fd A : List Str) (frm spec s' ff : Str)
   have : fd ++ [ff ++ dotTs] = A := by simpa using hres
   exact this.symm
 
+
+/-- `diff_paths` strips the common prefix: below the base directory only the rest remains -/
+theorem diffLoop_prefix (fd : List Str) (rest : List Comp) (hr : rest ≠ []) :
+    diffLoop false (N fd ++ rest) (N fd) = rest := by
+  induction fd with
+  | nil =>
+    cases rest with
+    | nil => exact absurd rfl hr
+    | cons a as => simp [N, diffLoop]
+  | cons a as ih =>
+    simp only [N, List.map_cons, List.cons_append, diffLoop]
+    simp only [N] at ih
+    simp [ih]
+
+theorem components_name (f : Str) (h1 : f ≠ []) (h2 : '/' ∉ f) (h3 : f ≠ ['.']) (h4 : f ≠ ['.', '.']) :
+    components f = [Comp.normal f] := by
+  have hs := splitChar_single '/' f h2
+  unfold components
+  split
+  · simp at h2
+  · rw [hs]; simp [pieceComps, h1, h3, h4]
+
+/-- **a file never imports from itself, under any spelling of its own path** (no ES-module imports): when the
+dependency's normalised path is the importing directory's followed by `ff.ts`, `import_path` returns
+`./ff` and the `is_same_file` test recognises it. -/
+theorem self_import_skipped (cwd frm imp dir p b ff : Str) (fd : List Str)
+    (hdir : parent frm = some dir) (hfn : fileName frm = some (ff ++ dotTs))
+    (hp : absolute cwd imp = .ok p) (hb : absolute cwd dir = .ok b)
+    (hpc : components p = Comp.root :: N (fd ++ [ff ++ dotTs]))
+    (hbc : components b = Comp.root :: N fd)
+    (hff : ff ≠ []) (hffs : '/' ∉ ff)
+    (hts : endsWith dotTs ff = false) (hjs : endsWith dotJs ff = false) :
+    importPath false cwd frm imp = some (.ok (['.', '/'] ++ ff)) ∧
+    isSameFile frm (['.', '/'] ++ ff) = true := by
+  refine ⟨?_, same_file_detects_self frm ff hfn hts hjs⟩
+  have hN : N (fd ++ [ff ++ dotTs]) = N fd ++ [Comp.normal (ff ++ dotTs)] := by simp [N]
+  have hdiff : diffLoop false (N (fd ++ [ff ++ dotTs])) (N fd) = [Comp.normal (ff ++ dotTs)] := by
+    rw [hN]; exact diffLoop_prefix fd _ (by simp)
+  have himp : importPath false cwd frm imp = some (.ok (specOfRel false
+      (ofComps (diffLoop false (N (fd ++ [ff ++ dotTs])) (N fd))))) := by
+    simp only [importPath, hdir, diffPaths, hp, hb, hpc, hbc, bind, Except.bind, pure, Except.pure]
+    simp [diffLoop]
+  rw [himp, hdiff]
+  have hrel : ofComps [Comp.normal (ff ++ dotTs)] = ff ++ dotTs := by simp [ofComps, compStr, intercalate]
+  have hne1 : ff ++ dotTs ≠ [] := by simp [dotTs]
+  have hs : '/' ∉ ff ++ dotTs := by simp [dotTs, hffs]
+  have hne2 : ff ++ dotTs ≠ ['.'] := by
+    intro h; have := congrArg List.length h; simp [dotTs] at this
+  have hne3 : ff ++ dotTs ≠ ['.', '.'] := by
+    intro h; have := congrArg List.length h; simp [dotTs] at this
+  have hstr : strPathOf (ff ++ dotTs) = ['.', '/'] ++ (ff ++ dotTs) := by
+    unfold strPathOf
+    rw [components_name _ hne1 hs hne2 hne3]
+    rfl
+  have hx := ext_none '.' 't' 's' (by decide) (by decide) (by decide) ff ['.'] hff hffs hts
+  have htrim : trimEndMatches dotTs ((['.'] ++ ['/'] ++ ff) ++ dotTs) = ['.'] ++ ['/'] ++ ff :=
+    trimEndMatches_once dotTs _ (by decide) hx
+  have e : ['.', '/'] ++ (ff ++ dotTs) = (['.'] ++ ['/'] ++ ff) ++ dotTs := by simp
+  simp only [specOfRel, hrel, hstr, Bool.false_eq_true, if_false]
+  rw [e, htrim]
+  simp
+
 end TsRs.Path
